@@ -22,7 +22,7 @@ Definition check_c13_tria (c : float * float * list (vec3 float) * list tri * c1
     res_eqb (fun a b => PrimFloat.leb (PrimFloat.abs (PrimFloat.sub a b))
                           (PrimFloat.mul tol (PrimFloat.add (PrimFloat.abs b) (PrimFloat.mul s (PrimFloat.mul s s)))))
             (tria_volume Fops v ts) (g_volume ob);
-    v3list_close_scaled tol [fst (centroid Fops v ts)] [g_centroid ob];
+    v3list_close_fl tol (fmaxabs (flat3 v)) [fst (centroid Fops v ts)] [g_centroid ob];
     fclose tol (snd (centroid Fops v ts)) (g_cen_area ob);
     v3list_close_scaled tol (tria_normals Fops v ts) (g_tnormals ob);
     res_eqb (v3list_close_scaled tol) (vertex_normals Fops (List.length v) v ts) (g_vnormals ob);
